@@ -625,6 +625,212 @@ Definition x_assign_slice (hp : heap) (a src : arr) (off len : nat) : ares :=
     end
   end.
 
+(* the content of a buffer *)
+Definition bview (b : buf) : list byte := firstn (bused b) (bdata b).
+
+(* ------------------------------------------------------------------ class templates of mptcore/array.h
+   typed_array<T>, unique_array<T>, pointer_array<T>, map<K,V> hold a reference<content<T>>: the same C
+   buffers with _content_traits = traits of T ([tr] = sizeof(T); POD or bitwise copy/init).  A handle
+   without a buffer stands for the static default_data object (Immutable|Shared|NoCopy, size 0): its
+   detach() creates a block (NoCopy for unique_array: [uq]).  Every method is a composition of the C
+   functions above plus index arithmetic; transcribed AS PATCHED by docs/C04_{reserve_negative,reserve_keep,
+   reserve_fail,map_get,map_set_shared,swap_bounds,ptr_swap_shared}.diff.
+
+   A C long position / length: forward k, backward = the negative value -(k+1), or "the current length"
+   (map::set/append/values call insert(length(), ...)). *)
+Inductive tpos := PFwd (k : nat) | PBack (k : nat) | PEnd.
+
+Definition t_at (used : nat) (p : tpos) : option nat :=
+  match p with
+  | PFwd k => Some k
+  | PBack k => if used <? k + 1 then None else Some (used - (k + 1))
+  | PEnd => Some used
+  end.
+
+(* content<T>::length() = _used / sizeof(T) *)
+Definition t_len (hp : heap) (a : arr) (tr : nat) : nat :=
+  match a with
+  | Some i => match hget hp i with Some b => bused b / tr | None => 0 end
+  | None => 0
+  end.
+
+(* c = _ref.detach(); n = c->detach(cnt * sizeof(T)); _ref.set_instance(n ? n : c) *)
+Definition t_private (hp : heap) (a : arr) (tr : nat) (uq : bool) (cnt : nat) : ares :=
+  match a with
+  | None => let '(hp1, j) := halloc hp (set_tr (new_buf (cnt * tr) false uq) tr) in ADone hp1 (Some j) 0
+  | Some i =>
+    match detach hp i (cnt * tr) with
+    | Ok (hp1, j) => ADone hp1 (Some j) 0
+    | Err _ => ARefused hp a
+    | Fault => AFault
+    end
+  end.
+
+(* unique_array::reserve(len): negative = relative to the length; a private copy keeps all elements;
+   a failing detach is a refusal *)
+Definition t_reserve (hp : heap) (a : arr) (tr : nat) (uq : bool) (len : tpos) : ares :=
+  let used := t_len hp a tr in
+  match t_at used len with
+  | None => ARefused hp a
+  | Some n => t_private hp a tr uq (Nat.max n used)
+  end.
+
+(* typed_array::insert(pos, val) / unique_array::insert(pos) + assignment: reserve(max(len,pos)+1),
+   content<T>::insert(pos) = mpt_buffer_insert(pos * sizeof(T), sizeof(T)), element stored *)
+Definition t_insert (hp : heap) (a : arr) (tr : nat) (uq : bool) (pos : tpos) (d : list byte) : ares :=
+  let used := t_len hp a tr in
+  match t_at used pos with
+  | None => ARefused hp a
+  | Some p =>
+    match t_private hp a tr uq (Nat.max p used + 1) with
+    | ADone hp1 (Some j) _ => insert_at hp1 j (p * tr) d
+    | ADone _ None _ => AFault
+    | r => r
+    end
+  end.
+
+(* unique_array::set(pos, v): position inside the elements, detach(), assignment.  [off] = offset of the
+   stored bytes inside the element (map::set stores the value behind the key) *)
+Definition t_store (hp : heap) (a : arr) (tr : nat) (uq : bool) (pos : tpos) (off : nat) (d : list byte) : ares :=
+  let used := t_len hp a tr in
+  match t_at used pos with
+  | None => ARefused hp a
+  | Some p =>
+    if used <=? p then ARefused hp a else
+    match t_private hp a tr uq used with
+    | ADone hp1 (Some j) _ => lift hp1 (Some j) (do hp2 <- store hp1 j (p * tr + off) d; Ok (hp2, Some j, 0))
+    | ADone _ None _ => AFault
+    | r => r
+    end
+  end.
+
+(* content<T>::set_length(n): buffer::trim / mpt_buffer_insert(n * sizeof(T), 0) *)
+Definition t_set_length (hp : heap) (j tr n : nat) : ares :=
+  match hget hp j with
+  | None => AFault
+  | Some b =>
+    let set := n * tr in
+    if set =? bused b then ADone hp (Some j) 0 else
+    if set <? bused b then
+      if negb (btr b =? 0) && negb (aligned (btr b) (bused b) && aligned (btr b) set) then ARefused hp (Some j)
+      else ADone (hset hp j (set_used b set)) (Some j) 0
+    else lift hp (Some j) (do b2 <- buffer_insert b set 0; Ok (hset hp j b2, Some j, 0))
+  end.
+
+(* unique_array::resize(len): reserve(len), then set_length(len) unless len is negative *)
+Definition t_resize (hp : heap) (a : arr) (tr : nat) (uq : bool) (len : tpos) : ares :=
+  match t_reserve hp a tr uq len with
+  | ADone hp1 (Some j) n =>
+    match len with
+    | PBack _ => ADone hp1 (Some j) n
+    | _ => match t_at (t_len hp a tr) len with Some m => t_set_length hp1 j tr m | None => AFault end
+    end
+  | r => r
+  end.
+
+(* unique_array::detach() *)
+Definition t_detach (hp : heap) (a : arr) (tr : nat) (uq : bool) : ares :=
+  t_private hp a tr uq (t_len hp a tr).
+
+(* typed_array(len) / unique_array(len) / pointer_array(len), len >= 0, assigned to the handle: a new block for len
+   elements replaces the reference (a negative len leaves the static default_data = clear, [array_clone] from nothing) *)
+Definition t_new (hp : heap) (a : arr) (tr : nat) (uq : bool) (n : nat) : ares :=
+  let hp1 := match a with Some i => hunref hp i | None => hp end in
+  let '(hp2, j) := halloc hp1 (set_tr (new_buf (n * tr) false uq) tr) in ADone hp2 (Some j) 0.
+
+(* elements of [tr] bytes; an unused pointer = all bytes zero *)
+Fixpoint all_zero (l : list byte) : bool :=
+  match l with [] => true | x :: t => (x =? 0)%N && all_zero t end.
+Fixpoint compactv (n tr : nat) (l : list byte) : list byte :=
+  match n with
+  | 0 => []
+  | S n' => (if all_zero (firstn tr l) then [] else firstn tr l) ++ compactv n' tr (skipn tr l)
+  end.
+Fixpoint unusedv (n tr : nat) (l : list byte) : nat :=
+  match n with
+  | 0 => 0
+  | S n' => (if all_zero (firstn tr l) then 1 else 0) + unusedv n' tr (skipn tr l)
+  end.
+
+(* pointer_array::compact(): nothing for immutable data; private: mpt_array_compact moves the used
+   pointers to the front (the bytes behind the new length are not part of the content and not
+   modelled), set_length; shared: a new block receives the used pointers one after the other *)
+Definition p_compact (hp : heap) (a : arr) (tr : nat) : ares :=
+  match a with
+  | None => ADone hp a 0
+  | Some i =>
+    match hget hp i with
+    | None => AFault
+    | Some b =>
+      if bimm b then ADone hp a 0 else
+      let keep := compactv (bused b / tr) tr (bview b) in
+      if shared b then
+        let nb := set_tr (new_buf (length keep) false false) tr in
+        lift hp a (do m <- wr (bdata nb) 0 keep;
+                   Ok (hunref hp i ++ [Some (set_used (set_data nb m) (length keep))], Some (length hp), 0))
+      else
+        lift hp a (do m <- wr (bdata b) 0 keep; Ok (hset hp i (set_used (set_data b m) (length keep)), a, 0))
+    end
+  end.
+
+(* pointer_array::swap(p1, p2): detach(), positions inside the elements ([None] = a negative argument) *)
+Definition p_swap (hp : heap) (a : arr) (tr : nat) (uq : bool) (p1 p2 : option nat) : ares :=
+  let used := t_len hp a tr in
+  match t_private hp a tr uq used with
+  | ADone hp1 (Some j) _ =>
+    match p1, p2 with
+    | Some q1, Some q2 =>
+      if (used <=? q1) || (used <=? q2) then ARefused hp1 (Some j) else
+      match hget hp1 j with
+      | None => AFault
+      | Some b =>
+        lift hp1 (Some j) (do e1 <- rd (bdata b) (q1 * tr) tr;
+                           do e2 <- rd (bdata b) (q2 * tr) tr;
+                           do m1 <- wr (bdata b) (q1 * tr) e2;
+                           do m2 <- wr m1 (q2 * tr) e1;
+                           Ok (hset hp1 j (set_data b m2), Some j, 0))
+      end
+    | _, _ => ARefused hp1 (Some j)
+    end
+  | ADone _ None _ => AFault
+  | r => r
+  end.
+
+(* map<K,V>: elements = key ([ks] bytes) followed by the value; linear search for the first element with the key *)
+Fixpoint list_eqb (a b : list byte) : bool :=
+  match a, b with
+  | [], [] => true
+  | x :: s, y :: t => (x =? y)%N && list_eqb s t
+  | _, _ => false
+  end.
+Fixpoint find_key (n i ks tr : nat) (l key : list byte) : option nat :=
+  match n with
+  | 0 => None
+  | S n' => if list_eqb (firstn ks l) key then Some i else find_key n' (S i) ks tr (skipn tr l) key
+  end.
+
+(* map::set(key, value): the value of the first element with the key is replaced in private data, else
+   the pair is inserted behind the elements *)
+Definition m_set (hp : heap) (a : arr) (ks tr : nat) (key val : list byte) : ares :=
+  let l := match a with
+           | Some i => match hget hp i with Some b => bview b | None => [] end
+           | None => [] end in
+  match find_key (length l / tr) 0 ks tr l key with
+  | Some i => t_store hp a tr false (PFwd i) ks val
+  | None => t_insert hp a tr false PEnd (key ++ val)
+  end.
+
+(* the template operations are applied to handles of their own element type only (static typing) *)
+Definition t_ok (hp : heap) (a : arr) (tr : nat) : bool :=
+  negb (tr =? 0) &&
+  match a with
+  | None => true
+  | Some i => match hget hp i with Some b => btr b =? tr | None => false end
+  end.
+(* pointer_array always owns a block (pointer_array(long len = 0)): swap is not applied to the default_data *)
+Definition t_okb (hp : heap) (a : arr) (tr : nat) : bool :=
+  match a with None => false | Some _ => t_ok hp a tr end.
+
 (* ------------------------------------------------------------------ handles, operations *)
 Record handle := mkh { hbuf : arr; hsl : bool; hoff : nat; hlen : nat }.
 Record state := mkst { sheap : heap; shnd : list handle }.
@@ -658,7 +864,18 @@ Inductive op :=
 | OXAssignSlice (x s : nat)            (* arr[x] = slice s *)
 | OXMkSlice (s y : nat)                (* sl[s] = slice(arr[y]) *)
 | OXShift (s n : nat)
-| OXTrim (s n : nat).
+| OXTrim (s n : nat)
+(* class templates of mptcore/array.h: tr = sizeof(T), uq = unique_array (NoCopy blocks) *)
+| OTNew (x tr : nat) (uq : bool) (len : nat)
+| OTInsert (x tr : nat) (uq : bool) (pos : tpos) (d : list byte)
+| OTStore (x tr : nat) (uq : bool) (pos : tpos) (d : list byte)      (* unique_array::set *)
+| OTReserve (x tr : nat) (uq : bool) (len : tpos)
+| OTResize (x tr : nat) (uq : bool) (len : tpos)
+| OTDetach (x tr : nat) (uq : bool)
+| OTRead (x : nat)                                                   (* get / offset / unused / map::get / values *)
+| OPCompact (x tr : nat)
+| OPSwap (x tr : nat) (p1 p2 : option nat)
+| OMSet (x ks tr : nat) (key val : list byte).
 
 (* ODone n m: accepted; n = number visible at the value level, m = mechanism-level number *)
 Inductive outcome := ODone (n m : nat) | ORefused | OGuard | OFault.
@@ -669,7 +886,9 @@ Definition target (o : op) : nat :=
   | OReduce x | OBufInsert x _ _ | OBufCut x _ _ | OBufSet x _ _ _ | OPrintf x _ | OString x
   | ONew x _ _ _ | OFlags x _ _ | OMkSlice x _ _ _ | OWrite x _ _ _ _
   | OXAssign x _ | OXAppend x _ | OXSet x _ | OXSetStr x _ | OXAssignSlice x _ | OXMkSlice x _
-  | OXShift x _ | OXTrim x _ => x
+  | OXShift x _ | OXTrim x _
+  | OTNew x _ _ _ | OTInsert x _ _ _ _ | OTStore x _ _ _ _ | OTReserve x _ _ _ | OTResize x _ _ _
+  | OTDetach x _ _ | OTRead x | OPCompact x _ | OPSwap x _ _ _ | OMSet x _ _ _ _ => x
   end.
 
 Definition is_slice_op (o : op) : bool :=
@@ -800,6 +1019,20 @@ Definition step (st : state) (o : op) : state * outcome :=
     if negb (consistent st x) then (st, OGuard) else
     if hlen h <? n then (st, ORefused)
     else (mkst hp (lset (shnd st) x (mkh a true (hoff h) (hlen h - n))), ODone 0 0)
+  | OTNew _ tr uq len => if tr =? 0 then (st, OGuard) else fin st x false (t_new hp a tr uq len)
+  | OTInsert _ tr uq pos d =>
+    if negb (t_ok hp a tr && (length d =? tr)) then (st, OGuard) else fin st x false (t_insert hp a tr uq pos d)
+  | OTStore _ tr uq pos d =>
+    if negb (t_ok hp a tr && (length d =? tr)) then (st, OGuard) else fin st x false (t_store hp a tr uq pos 0 d)
+  | OTReserve _ tr uq len => if negb (t_ok hp a tr) then (st, OGuard) else fin st x false (t_reserve hp a tr uq len)
+  | OTResize _ tr uq len => if negb (t_ok hp a tr) then (st, OGuard) else fin st x false (t_resize hp a tr uq len)
+  | OTDetach _ tr uq => if negb (t_ok hp a tr) then (st, OGuard) else fin st x false (t_detach hp a tr uq)
+  | OTRead _ => (st, ODone 0 0)
+  | OPCompact _ tr => if negb (t_ok hp a tr) then (st, OGuard) else fin st x false (p_compact hp a tr)
+  | OPSwap _ tr p1 p2 => if negb (t_okb hp a tr) then (st, OGuard) else fin st x false (p_swap hp a tr false p1 p2)
+  | OMSet _ ks tr key val =>
+    if negb (t_ok hp a tr && (length key =? ks) && (ks + length val =? tr)) then (st, OGuard)
+    else fin st x false (m_set hp a ks tr key val)
   end.
 
 Fixpoint run (st : state) (ops : list op) : list (state * outcome) :=
@@ -809,7 +1042,6 @@ Fixpoint run (st : state) (ops : list op) : list (state * outcome) :=
   end.
 
 (* ------------------------------------------------------------------ what a handle reads *)
-Definition bview (b : buf) : list byte := firstn (bused b) (bdata b).
 
 Definition view (st : state) (x : nat) : list byte :=
   let h := hnd st x in
